@@ -162,6 +162,32 @@ theorem iter_escaped_backslash_fixed :
     getProperty escWitness [97, 92, 103] true = none ∧ (getProperty escWitness escLit true).isSome = true := by
   decide
 
+/-- `getProperties(name, all=True)`: every entry with the normalised name (every entry when no name is given), in
+block order — for every block -/
+theorem getProperties_all_spec (seq : List Item) (name : Cps) :
+    getProperties seq name true =
+      ((props seq).filter (fun p => normalize name == [] || p.name == normalize name)).map some := by
+  unfold getProperties getPropertiesIdx
+  simp only [Bool.not_true, Bool.and_false, Bool.false_eq_true, if_false, List.map_map]
+  rw [← propIdxs_propAt]
+  apply List.map_congr_left
+  intro j _
+  rfl
+
+/-- `getProperties(name)` with a name (`all=False`): the effective entry of that name, or nothing -/
+theorem getProperties_named_spec (seq : List Item) (name : Cps) (hn : name ≠ []) (h : NameInv seq) :
+    getProperties seq name false = (effective (props seq) (normalize name)).toList.map some := by
+  have hb : (name != [] && !false) = true := by simp [hn]
+  have e : getProperties seq name false = (getProperty seq name true).toList.map some := by
+    unfold getProperties getPropertiesIdx getProperty
+    simp only [hb, if_true]
+    cases hi : getPropertyIdx seq name true with
+    | none => rfl
+    | some i =>
+      obtain ⟨p, hp, _⟩ := getPropertyIdx_some seq name true i hi
+      simp [hp]
+  rw [e, getProperty_spec seq name h]
+
 /-! ## T10.3 removal -/
 
 /-- T10.3 `removeProperty(name)` deletes every entry of the normalised name and nothing else, returns the effective
@@ -246,6 +272,39 @@ theorem set_spec (env : Env) (d : Decl) (name v prio : Cps) (newp : Pty) (h : Na
     simp only [hr, Bool.false_eq_true, if_false, hmk, hw, if_true]
     cases effective (props d.seq) (normalize name) <;> rfl
 
+/-- T10.4 (`normalize=False`): with an accepted new property the LAST entry whose literal name is `name` is modified
+in place — not the effective (`!important`) one among them, and no entry spelled differently; without such an entry
+the new one is appended (also when the block holds the property under another spelling) -/
+theorem set_literal_spec (env : Env) (d : Decl) (name v prio : Cps) (newp : Pty) (h : NameInv d.seq)
+    (hr : d.readonly = false) (hv : v ≠ []) (hmk : mkProperty env name v prio = .ok newp) (hw : newp.wf = true) :
+    props (setProperty env d name (some v) prio false true).st.seq =
+      (match lastP (fun q => q.lit == name) (props d.seq) with
+       | some _ => updLast (fun q => q.lit == name) (fun q => (updateProp env q newp).p) (props d.seq)
+       | none => props d.seq ++ [newp]) ∧
+    nonProps (setProperty env d name (some v) prio false true).st.seq = nonProps d.seq := by
+  have hh := setLit_refines env d name (some v) prio true h
+  refine ⟨?_, hh.2.2.2⟩
+  have := hh.1
+  unfold absD at this
+  have hps := congrArg Spec.ps this
+  simp only [] at hps
+  rw [hps]
+  unfold specSetLit
+  cases v with
+  | nil => exact absurd rfl hv
+  | cons c cs =>
+    simp only [hr, Bool.false_eq_true, if_false, hmk, hw, if_true]
+    cases lastP (fun q => q.lit == name) (props d.seq) <;> rfl
+
+/-- the difference to the default is real: in `c: 1 !important; c: 2` a literal update of `c` changes the second
+entry, the normalising update the first (effective) one -/
+example :
+    (props (setProperty exampleEnv { seq := renderWitness } [99] (some [51]) [] false true).st.seq).map (·.val.css)
+      = [[49], [51]] ∧
+    (props (setProperty exampleEnv { seq := renderWitness } [99] (some [51]) [] true true).st.seq).map (·.val.css)
+      = [[51], [50]] := by
+  decide
+
 /-- whatever `setProperty` does (update, append, removal for an empty value, rejection), comments and unknown rules
 of the block stay where they are -/
 theorem set_keeps_comments (env : Env) (d : Decl) (name : Cps) (value : Option Cps) (prio : Cps) (repl : Bool)
@@ -317,6 +376,7 @@ theorem step_refines (env : Env) (d : Decl) (c : Call) (h : NameInv d.seq) :
   | mk raising op =>
     cases op with
     | set n v p repl => exact ⟨(set_refines _ d n v p repl h).1, (set_refines _ d n v p repl h).2.1, (set_refines _ d n v p repl h).2.2.1⟩
+    | setLit n v p repl => exact ⟨(setLit_refines _ d n v p repl h).1, (setLit_refines _ d n v p repl h).2.1, (setLit_refines _ d n v p repl h).2.2.1⟩
     | setItem n v p => exact ⟨(set_refines _ d n v (p.getD []) true h).1, (set_refines _ d n v (p.getD []) true h).2.1, (set_refines _ d n v (p.getD []) true h).2.2.1⟩
     | remove n norm =>
       have := remove_refines d n norm h
@@ -457,12 +517,43 @@ theorem vars_run (env : Env) (s : Vars) (ops : List (Bool × VOp)) (h : VInv s) 
     | setText items => exact vSetCssText_inv s items h
     | setReadonly b => exact h
 
-/- `[(k, getVariableValue(k)) for k in keys()] = serialisation`, full statement for every history: FALSE by design of
-   the API for a key that is not a fixpoint of `normalize` (`getVariableValue` normalises the *listed* key once more);
-   it holds when the identifiers used are stable — the same residual as `getPropertyValue(keys()[i])`. -/
+/-- T10.7, the clause of the property statement ("its serialisation always listing exactly the variables the API
+reports") over ALL histories and ALL names, no guard: the API report
+`[(k, getVariableValue(requote(k))) for k in keys()]` — every listed key looked up by a literal spelling of it,
+`requote` doubling each backslash — equals the serialised (name, value) list, in order. (`keys()` lists *normalised*
+names and `getVariableValue` normalises its argument, so a listed key has to be written as a literal again before it
+is passed back; `normalize_requote` shows that `requote` is such a spelling for every normalised name.) -/
+theorem vars_run_reported (env : Env) (s : Vars) (ops : List (Bool × VOp)) (h : VInv s) :
+    vReportedQ (vrun env s ops) = vSerialized (vrun env s ops) ∧
+    ∀ k ∈ vKeys (vrun env s ops), normalize (requote k) = k := by
+  have hinv := (vars_run env s ops h).1
+  refine ⟨vReportedQ_eq _ hinv, ?_⟩
+  intro k hk
+  obtain ⟨e, he, hek⟩ := List.mem_map.mp hk
+  obtain ⟨n, hn⟩ := varsOf_keys_normal (vrun env s ops).seq e (by rw [← hinv.1]; exact he)
+  rw [← hek, hn]
+  exact normalize_requote n
 
-/-- … and when all identifiers are stable under `normalize`, looking every listed key up reports the serialisation -/
-theorem vars_run_reported_partial (env : Env) (s : Vars) (ops : List (Bool × VOp)) (h : VInv s) (hk : KeysStable s)
+/-- … in particular from the empty block -/
+theorem vars_run_reported_from_empty (env : Env) (ops : List (Bool × VOp)) :
+    vReportedQ (vrun env { vars := [], seq := [] } ops) = vSerialized (vrun env { vars := [], seq := [] } ops) :=
+  (vars_run_reported env _ ops vars_inv_empty).1
+
+/-- the same for the style block: looking a LISTED name up by its literal spelling finds the effective entry of that
+name — at every block satisfying the name invariant (every reachable one, `run_refines`) -/
+theorem listed_name_lookup (seq : List Item) (h : NameInv seq) (n : Cps) (hn : n ∈ keys seq) :
+    getProperty seq (requote n) true = effective (props seq) n ∧ (effective (props seq) n).isSome = true := by
+  obtain ⟨p, hp, hpn⟩ := (mem_nnames seq n).mp hn
+  have e : normalize (requote n) = n := by
+    rw [← hpn, h p hp]; exact normalize_requote p.lit
+  refine ⟨by rw [getProperty_spec seq _ h, e], ?_⟩
+  obtain ⟨x, hx⟩ := effectiveBy_isSome_of_mem (fun q => q.name == n) (props seq) p hp (by simp [hpn])
+  unfold effective
+  rw [hx]; rfl
+
+/-- the variant that passes the listed key back AS IT IS (`getVariableValue(k)`) holds when all identifiers are stable
+under `normalize` … -/
+theorem vars_run_reported_direct (env : Env) (s : Vars) (ops : List (Bool × VOp)) (h : VInv s) (hk : KeysStable s)
     (hst : ∀ o ∈ ops, VOpStable (withMode env o.1) o.2) :
     KeysStable (vrun env s ops) ∧ vReported (vrun env s ops) = vSerialized (vrun env s ops) := by
   suffices hh : KeysStable (vrun env s ops) from
@@ -482,6 +573,13 @@ theorem vars_run_reported_partial (env : Env) (s : Vars) (ops : List (Bool × VO
       rw [hop] at ho
       exact ih _ (vSetCssText_inv s items h) (vSetCssText_keysStable s items hk ho) hrest
     | setReadonly b => exact ih _ h hk hrest
+
+/-- … and only then: for the block of `vars_escaped_backslash_fixed` (one variable `a\\g`) the key `a\g` passed back
+as it is finds nothing, while its literal spelling finds the value -/
+theorem vars_reported_direct_needs_guard :
+    vReported escVars = [([97, 92, 103], [])] ∧ vReportedQ escVars = [([97, 92, 103], [50])] ∧
+    vSerialized escVars = [([97, 92, 103], [50])] := by
+  decide
 
 /-- the former witness of the fixed finding in the variables block: `setVariable('a\\g','1'); setVariable('a\\g','2')`
 now leaves one item `a\\g` with the value `2`, key `a\g`, and the invariant holds -/
